@@ -1,20 +1,21 @@
-(* Stage B, part 1: Compiler.compile_program on straight-line programs over top-level variables emits exactly
-   [pcode], and leaves a root table that maps the variables, in declaration order, to the global slots 0, 1, 2 ... *)
+(* Stages B and C, part 1: Compiler.compile_program on programs over top-level variables emits exactly [pcode], and
+   leaves a root table that maps the variables, in declaration order, to the global slots 0, 1, 2 ... plus one empty
+   block table per branch of a conditional. *)
 From Coq Require Import List ZArith NArith Bool Arith Lia.
 Require Import RV.model.Syntax RV.model.Compiler RV.model.ScalarFrag RV.model.VarProg RV.proofs.BackendProofs RV.proofs.VarProgFacts.
 Import ListNotations.
 Local Open Scope nat_scope.
 
-(* insert_symbol on a state whose only table is a non-block table that does not know the name yet *)
-Lemma insert_root (tb : table) name c stk fi :
+(* insert_symbol into table 0 when that is a non-block table that does not know the name yet *)
+Lemma insert_root (tb : table) rest name c stk fi :
   tb_block tb = false -> Compiler.assoc name (tb_byname tb) = None ->
-  insert_symbol 0 name c {| st_tabs := [tb]; st_stack := stk; st_funcindex := fi |} =
+  insert_symbol 0 name c {| st_tabs := tb :: rest; st_stack := stk; st_funcindex := fi |} =
   inr ({| sy_name := name; sy_index := N.of_nat (length (tb_syms tb)); sy_const := c |},
-       {| st_tabs := [ {| tb_id := tb_id tb; tb_parent := tb_parent tb; tb_nchildren := tb_nchildren tb;
-                          tb_byname := (name, {| sy_name := name; sy_index := N.of_nat (length (tb_syms tb)); sy_const := c |}) :: tb_byname tb;
-                          tb_freebyname := tb_freebyname tb;
-                          tb_syms := tb_syms tb ++ [ {| sy_name := name; sy_index := N.of_nat (length (tb_syms tb)); sy_const := c |} ];
-                          tb_free := tb_free tb; tb_block := tb_block tb |} ];
+       {| st_tabs := {| tb_id := tb_id tb; tb_parent := tb_parent tb; tb_nchildren := tb_nchildren tb;
+                        tb_byname := (name, {| sy_name := name; sy_index := N.of_nat (length (tb_syms tb)); sy_const := c |}) :: tb_byname tb;
+                        tb_freebyname := tb_freebyname tb;
+                        tb_syms := tb_syms tb ++ [ {| sy_name := name; sy_index := N.of_nat (length (tb_syms tb)); sy_const := c |} ];
+                        tb_free := tb_free tb; tb_block := tb_block tb |} :: rest;
           st_stack := stk; st_funcindex := fi |}).
 Proof.
   destruct tb as [tid tpar tnc tby tfb tsy tfr tbl]. cbn [tb_block tb_byname]. intros -> Ha.
@@ -25,20 +26,28 @@ Section Names.
   Variable names : list (list N).
   Hypothesis names_nodup : NoDup names.
 
-  Definition root_tb (n : nat) : table :=
-    {| tb_id := root_id; tb_parent := None; tb_nchildren := 0;
+  (* the root table after n declarations and m blocks *)
+  Definition root_tb (n m : nat) : table :=
+    {| tb_id := root_id; tb_parent := None; tb_nchildren := m;
        tb_byname := map (fun i => (nth i names [], sym_of names i)) (rev (seq 0 n));
        tb_freebyname := []; tb_syms := map (sym_of names) (seq 0 n); tb_free := []; tb_block := false |}.
+  (* the j-th block opened directly under the root *)
+  Definition block_j (j : nat) : table :=
+    {| tb_id := root_id ++ [46%N] ++ dec j; tb_parent := Some 0; tb_nchildren := 0; tb_byname := [];
+       tb_freebyname := []; tb_syms := []; tb_free := []; tb_block := true |}.
+  Definition blocks (m : nat) : list table := map block_j (seq 0 m).
 
   Definition main_w (ks : list konst) : wcode :=
     {| w_id := main_id; w_name := main_id; w_named := false; w_functab := 0; w_tab := 0;
        w_consts := ks; w_names := []; w_children := []; w_pipe := false; w_funcid := [];
        w_loops := []; w_root := true |}.
 
-  Definition pstate (n : nat) (ks : list konst) : cstate :=
-    {| st_tabs := [root_tb n]; st_stack := [main_w ks]; st_funcindex := 0 |}.
+  (* the compiler state: n variables, m blocks so far, current table t (0 = root), constants ks *)
+  Definition gstate (n m t : nat) (ks : list konst) : cstate :=
+    {| st_tabs := root_tb n m :: blocks m; st_stack := [with_tab (main_w ks) t]; st_funcindex := 0 |}.
+  Notation pstate n m ks := (gstate n m 0 ks).
 
-  Lemma init_is_pstate : init_state [] = pstate 0 [].
+  Lemma init_is_pstate : init_state [] = pstate 0 0 [].
   Proof. reflexivity. Qed.
 
   Lemma beq_refl (a : list N) : Compiler.beq a a = true.
@@ -49,8 +58,8 @@ Section Names.
   Lemma names_distinct i j : i < length names -> j < length names -> i <> j -> nth i names [] <> nth j names [].
   Proof. intros Hi Hj Hne Heq. apply Hne. exact (proj1 (NoDup_nth names []) names_nodup i j Hi Hj Heq). Qed.
 
-  Lemma byname_lookup n : n <= length names -> forall i, i < n ->
-    Compiler.assoc (nth i names []) (tb_byname (root_tb n)) = Some (sym_of names i).
+  Lemma byname_lookup n m : n <= length names -> forall i, i < n ->
+    Compiler.assoc (nth i names []) (tb_byname (root_tb n m)) = Some (sym_of names i).
   Proof.
     induction n as [|n IH]; intros Hn i Hi; [lia|].
     cbn [root_tb tb_byname]. rewrite seq_S, rev_app_distr. cbn [rev app map Nat.add Compiler.assoc].
@@ -59,52 +68,73 @@ Section Names.
     - rewrite beq_neq by (apply names_distinct; lia). apply (IH ltac:(lia) i ltac:(lia)).
   Qed.
 
-  Lemma byname_fresh n : n < length names ->
-    Compiler.assoc (nth n names []) (tb_byname (root_tb n)) = None.
+  Lemma byname_fresh n m : n < length names ->
+    Compiler.assoc (nth n names []) (tb_byname (root_tb n m)) = None.
   Proof.
     intros Hn. cbn [root_tb tb_byname].
-    assert (H : forall m, m <= n -> Compiler.assoc (nth n names []) (map (fun i => (nth i names [], sym_of names i)) (rev (seq 0 m))) = None).
-    { induction m as [|m IH]; intros Hm; [reflexivity|].
+    assert (H : forall k, k <= n -> Compiler.assoc (nth n names []) (map (fun i => (nth i names [], sym_of names i)) (rev (seq 0 k))) = None).
+    { induction k as [|k IH]; intros Hk; [reflexivity|].
       rewrite seq_S, rev_app_distr. cbn [rev app map Nat.add Compiler.assoc].
       rewrite beq_neq by (apply names_distinct; lia). apply IH. lia. }
     apply H. lia.
   Qed.
 
-  Lemma pstate_tabs_ok n ks : n <= length names -> tabs_ok names (st_tabs (pstate n ks)) n.
-  Proof. intros Hn. split; [reflexivity|]. intros i Hi. exact (byname_lookup n Hn i Hi). Qed.
+  Lemma gstate_tabs_ok n m t ks : n <= length names -> tabs_ok names (st_tabs (gstate n m t ks)) n.
+  Proof. intros Hn. split; [reflexivity|]. intros i Hi. exact (byname_lookup n m Hn i Hi). Qed.
 
-  Lemma add_consts_pstate n ks ks' : add_consts (pstate n ks) ks' = pstate n (ks ++ ks').
+  Lemma add_consts_gstate n m t ks ks' : add_consts (gstate n m t ks) ks' = gstate n m t (ks ++ ks').
   Proof. reflexivity. Qed.
 
-  (* expressions on the program state *)
-  Lemma compile_exp n ks e f : n <= length names -> wf n e = true -> height e <= f ->
-    compile f (embed names e) (pstate n ks) =
-    inr (I (fst (cexp (length ks) e)), pstate n (ks ++ snd (cexp (length ks) e))).
+  Lemma nth_blocks m j : j < m -> nth (S j) (root_tb 0 0 :: blocks m) dummy_table = block_j j.
   Proof.
-    intros Hn Hwf Hf.
-    rewrite (compile_scalar names n e f (pstate n ks) (main_w ks) [] eq_refl eq_refl (pstate_tabs_ok n ks Hn) Hwf Hf).
+    intros Hj. cbn [nth]. unfold blocks.
+    rewrite (nth_indep _ dummy_table (block_j 0)) by (rewrite map_length, seq_length; exact Hj).
+    rewrite map_nth, seq_nth by exact Hj. reflexivity.
+  Qed.
+
+  (* variables resolve to their global slot, at the root and inside a block *)
+  Lemma gstate_res_ok n m t ks : n <= length names -> t <= m -> res_ok names (gstate n m t ks) n.
+  Proof.
+    intros Hn Ht. destruct t as [|j].
+    - exact (res_ok_root names (gstate n m 0 ks) (main_w ks) [] n eq_refl eq_refl (gstate_tabs_ok n m 0 ks Hn)).
+    - apply (res_ok_block names (gstate n m (S j) ks) (with_tab (main_w ks) (S j)) [] n eq_refl).
+      + cbn [with_tab w_tab gstate st_tabs nth]. unfold blocks.
+        rewrite (nth_indep _ dummy_table (block_j 0)) by (rewrite map_length, seq_length; lia).
+        rewrite map_nth, seq_nth by lia. repeat split.
+      + exact (gstate_tabs_ok n m (S j) ks Hn).
+  Qed.
+
+  (* expressions on the program state *)
+  Lemma compile_exp n m t ks e f : n <= length names -> t <= m -> wf n e = true -> height e <= f ->
+    compile f (embed names e) (gstate n m t ks) =
+    inr (I (fst (cexp (length ks) e)), gstate n m t (ks ++ snd (cexp (length ks) e))).
+  Proof.
+    intros Hn Ht Hwf Hf.
+    rewrite (compile_scalar_res names n e f (gstate n m t ks) (with_tab (main_w ks) t) [] eq_refl
+               (gstate_res_ok n m t ks Hn Ht) Hwf Hf).
     reflexivity.
   Qed.
 
-  Lemma root_tb_S n : root_tb (S n) =
-    {| tb_id := root_id; tb_parent := None; tb_nchildren := 0;
-       tb_byname := (nth n names [], sym_of names n) :: tb_byname (root_tb n);
-       tb_freebyname := []; tb_syms := tb_syms (root_tb n) ++ [sym_of names n]; tb_free := []; tb_block := false |}.
+  Lemma root_tb_S n m : root_tb (S n) m =
+    {| tb_id := root_id; tb_parent := None; tb_nchildren := m;
+       tb_byname := (nth n names [], sym_of names n) :: tb_byname (root_tb n m);
+       tb_freebyname := []; tb_syms := tb_syms (root_tb n m) ++ [sym_of names n]; tb_free := []; tb_block := false |}.
   Proof.
     unfold root_tb. cbn [tb_byname tb_syms]. rewrite seq_S, map_app, rev_app_distr. reflexivity.
   Qed.
 
-  Lemma root_syms_length n : length (tb_syms (root_tb n)) = n.
+  Lemma root_syms_length n m : length (tb_syms (root_tb n m)) = n.
   Proof. cbn [root_tb tb_syms]. rewrite map_length, seq_length. reflexivity. Qed.
 
   Arguments root_tb : simpl never.
 
-  Lemma insert_next n ks : n < length names ->
-    insert_symbol 0 (nth n names []) false (pstate n ks) = inr (sym_of names n, pstate (S n) ks).
+  Lemma insert_next n m ks : n < length names ->
+    insert_symbol 0 (nth n names []) false (pstate n m ks) = inr (sym_of names n, pstate (S n) m ks).
   Proof.
-    intros Hn. unfold pstate. rewrite (insert_root (root_tb n) _ _ _ _ eq_refl (byname_fresh n Hn)).
+    intros Hn. unfold gstate. rewrite (insert_root (root_tb n m) _ _ _ _ _ eq_refl (byname_fresh n m Hn)).
     rewrite root_syms_length, root_tb_S. reflexivity.
   Qed.
+
   (* ---------------------------------------------------------------- statements *)
   Lemma compile_NVar f name v : compile (S f) (NVar name v) =
     bind (compile f v) (fun a => bind cur (fun w => bind (insert_symbol (w_tab w) name false) (fun sym =>
@@ -116,35 +146,7 @@ Section Names.
       bind (compile f v) (fun a => ret (a ++ store_res rs))).
   Proof. reflexivity. Qed.
 
-  Notation embed_stmt := (VarProgFacts.embed_stmt names).
-  Notation embed_stmts_cons := (VarProgFacts.embed_stmts_cons names).
-
-  Lemma compile_stmt k ks s f :
-    next_k k s <= length names -> wf_stmt k s = true -> height (stmt_exp s) <= f ->
-    compile (S f) (embed_stmt k s) (pstate k ks) =
-    inr (I (fst (stmt_code k (length ks) s)), pstate (next_k k s) (ks ++ snd (stmt_code k (length ks) s))).
-  Proof.
-    intros Hk Hwf Hf. destruct s as [e|i e|e]; cbn [embed_stmt stmt_code next_k wf_stmt stmt_exp] in *.
-    - (* x := e *)
-      rewrite compile_NVar. unfold bind at 1.
-      rewrite (compile_exp k ks e f ltac:(lia) Hwf Hf).
-      destruct (cexp (length ks) e) as [c kk]. cbn [fst snd].
-      unfold bind, cur. cbn [pstate st_stack main_w w_tab].
-      rewrite (insert_next k (ks ++ kk) ltac:(lia)).
-      unfold store_sym, bind, is_root, cur, ret. cbn [pstate st_stack main_w w_root sym_of sy_index].
-      rewrite I_app. reflexivity.
-    - (* x = e *)
-      apply andb_true_iff in Hwf. destruct Hwf as [Hi Hwf]. apply Nat.ltb_lt in Hi.
-      rewrite compile_NAssign_eq. unfold bind at 1.
-      rewrite (resolve_cur_bound names (pstate k ks) (main_w ks) [] k i eq_refl eq_refl (pstate_tabs_ok k ks ltac:(lia)) Hi).
-      cbn [rs_sym sym_of sy_const]. unfold bind.
-      rewrite (compile_exp k ks e f ltac:(lia) Hwf ltac:(lia)).
-      destruct (cexp (length ks) e) as [c kk]. cbn [fst snd].
-      unfold ret, store_res. cbn [rs_scope rs_sym sym_of sy_index]. rewrite I_app. reflexivity.
-    - (* e *)
-      rewrite (compile_exp k ks e (S f) ltac:(lia) Hwf ltac:(lia)). reflexivity.
-  Qed.
-  (* ---------------------------------------------------------------- the statement loop of compileProgram *)
+  (* the statement loop of compileProgram and of compileBlock *)
   Definition cs_loop (fuel : nat) : list node -> M (list slot) :=
     fix cs (l : list node) : M (list slot) :=
       match l with
@@ -152,33 +154,179 @@ Section Names.
       | [x] => bind (compile fuel x) (fun a => ret (a ++ nil_after x))
       | x :: r => bind (compile fuel x) (fun a => bind (cs r) (fun b => ret (a ++ pop_between x ++ b)))
       end.
-
   Lemma cs_loop_cons f x y r : cs_loop f (x :: y :: r) =
     bind (compile f x) (fun a => bind (cs_loop f (y :: r)) (fun b => ret (a ++ pop_between x ++ b))).
   Proof. reflexivity. Qed.
 
+  (* compileBlock *)
+  Definition cblock (fuel : nat) (l : list node) : M (list slot) :=
+    bind open_block (fun _ => bind (match l with [] => ret (I [opNil]) | _ => cs_loop fuel l end)
+                                   (fun c => bind close_block (fun _ => ret c))).
+  Lemma compile_NIf f c cns al : compile (S f) (NIf c cns (Some al)) =
+    bind (compile f c) (fun a => bind (cblock f cns) (fun t => bind (cblock f al) (fun e =>
+      ret (a ++ I [opPopJumpForwardIfFalse; (nlen t + 4)%N] ++ t ++ I [opJumpForward; (nlen e + 2)%N] ++ e)))).
+  Proof. reflexivity. Qed.
+  (* ---------------------------------------------------------------- blocks *)
+  Lemma blocks_S m : blocks (S m) = blocks m ++ [block_j m].
+  Proof. unfold blocks. rewrite seq_S, map_app. reflexivity. Qed.
+
+  Lemma blocks_length m : length (blocks m) = m.
+  Proof. unfold blocks. rewrite map_length, seq_length. reflexivity. Qed.
+
+  Lemma open_block_root n m ks : open_block (pstate n m ks) = inr (tt, gstate n (S m) (S m) ks).
+  Proof.
+    unfold open_block, bind, cur, new_child, get_tab, set_tab, set_cur, bind.
+    cbn [gstate st_stack st_tabs nth with_tab w_tab main_w list_set st_funcindex].
+    unfold gstate. rewrite blocks_S. cbn [length]. rewrite blocks_length.
+    reflexivity.
+  Qed.
+
+  Lemma close_block_last n m ks : close_block (gstate n (S m) (S m) ks) = inr (tt, pstate n (S m) ks).
+  Proof.
+    unfold close_block, bind, cur, get_tab, set_cur.
+    cbn [gstate st_stack st_tabs with_tab w_tab main_w].
+    assert (E : nth (S m) (root_tb n (S m) :: blocks (S m)) dummy_table = block_j m).
+    { cbn [nth]. unfold blocks. rewrite (nth_indep _ dummy_table (block_j 0)) by (rewrite map_length, seq_length; lia).
+      rewrite map_nth, seq_nth by lia. reflexivity. }
+    rewrite E. reflexivity.
+  Qed.
+
+  (* ---------------------------------------------------------------- the statements of a branch *)
+  Lemma pop_between_simple m0 : pop_between (embed_simple names m0) = if is_expr_simple m0 then [SI opPopTop] else [].
+  Proof. destruct m0; cbn [embed_simple is_expr_simple]; unfold pop_between; [reflexivity|rewrite (embed_is_expression names); reflexivity]. Qed.
+  Lemma nil_after_simple m0 : nil_after (embed_simple names m0) = if is_expr_simple m0 then [] else [SI opNil].
+  Proof. destruct m0; cbn [embed_simple is_expr_simple]; unfold nil_after; [reflexivity|rewrite (embed_is_expression names); reflexivity]. Qed.
+
+  Lemma compile_simple n m t ks m0 f :
+    n <= length names -> t <= m -> wf_simple n m0 = true -> height (simple_exp m0) <= f ->
+    compile (S f) (embed_simple names m0) (gstate n m t ks) =
+    inr (I (fst (simple_code (length ks) m0)), gstate n m t (ks ++ snd (simple_code (length ks) m0))).
+  Proof.
+    intros Hn Ht Hwf Hf. destruct m0 as [i e|e]; cbn [embed_simple simple_code wf_simple simple_exp] in *.
+    - apply andb_true_iff in Hwf. destruct Hwf as [Hi Hwf]. apply Nat.ltb_lt in Hi.
+      rewrite compile_NAssign_eq. unfold bind at 1.
+      rewrite (res_ok_here names (gstate n m t ks) n (with_tab (main_w ks) t) [] i eq_refl (gstate_res_ok n m t ks Hn Ht) Hi).
+      cbn [rs_sym sym_of sy_const]. unfold bind.
+      rewrite (compile_exp n m t ks e f Hn Ht Hwf Hf).
+      destruct (cexp (length ks) e) as [c kk]. cbn [fst snd].
+      unfold ret, store_res. cbn [rs_scope rs_sym sym_of sy_index]. rewrite I_app. reflexivity.
+    - rewrite (compile_exp n m t ks e (S f) Hn Ht Hwf ltac:(lia)). reflexivity.
+  Qed.
+
+  Lemma simples_height_cons m0 r : simples_height (m0 :: r) = Nat.max (height (simple_exp m0)) (simples_height r).
+  Proof. reflexivity. Qed.
+
+  Lemma cs_simples f n m t : n <= length names -> t <= m -> forall l ks, l <> [] ->
+    forallb (wf_simple n) l = true -> simples_height l <= f ->
+    cs_loop (S f) (map (embed_simple names) l) (gstate n m t ks) =
+    inr (I (fst (simples_code (length ks) l)), gstate n m t (ks ++ snd (simples_code (length ks) l))).
+  Proof.
+    intros Hn Ht. induction l as [|m0 r IH]; intros ks Hne Hwf Hh; [contradiction|].
+    cbn [forallb] in Hwf. apply andb_true_iff in Hwf. destruct Hwf as [Hw0 Hwr].
+    rewrite simples_height_cons in Hh.
+    pose proof (compile_simple n m t ks m0 f Hn Ht Hw0 ltac:(lia)) as Hc.
+    destruct r as [|m2 r2].
+    - cbn [map cs_loop]. rewrite simples_code_single. unfold bind. rewrite Hc.
+      destruct (simple_code (length ks) m0) as [c kk]. cbn [fst snd]. unfold ret.
+      rewrite nil_after_simple, I_app. destruct (is_expr_simple m0); reflexivity.
+    - assert (Hr : m2 :: r2 <> []) by discriminate.
+      change (map (embed_simple names) (m0 :: m2 :: r2))
+        with (embed_simple names m0 :: embed_simple names m2 :: map (embed_simple names) r2).
+      rewrite cs_loop_cons.
+      change (embed_simple names m2 :: map (embed_simple names) r2) with (map (embed_simple names) (m2 :: r2)).
+      unfold bind at 1. rewrite Hc.
+      destruct (simple_code (length ks) m0) as [c kk] eqn:Es. cbn [fst snd].
+      unfold bind at 1.
+      rewrite (IH (ks ++ kk) Hr Hwr ltac:(lia)).
+      rewrite app_length, simples_code_cons2, Es.
+      destruct (simples_code (length ks + length kk) (m2 :: r2)) as [cr kr]. cbn [fst snd].
+      unfold ret. rewrite pop_between_simple, <- app_assoc, !I_app.
+      destruct (is_expr_simple m0); reflexivity.
+  Qed.
+
+  (* a whole branch: opens block m, compiles the statements (Nil for none), closes the block *)
+  Lemma cblock_branch f n m ks l : n <= length names ->
+    forallb (wf_simple n) l = true -> simples_height l <= f ->
+    cblock (S f) (map (embed_simple names) l) (pstate n m ks) =
+    inr (I (fst (block_code (length ks) l)), pstate n (S m) (ks ++ snd (block_code (length ks) l))).
+  Proof.
+    intros Hn Hwf Hh. unfold cblock. unfold bind at 1. rewrite open_block_root.
+    destruct l as [|m0 r].
+    - cbn [map block_code fst snd]. unfold bind, ret. rewrite close_block_last, app_nil_r. reflexivity.
+    - assert (Hne : m0 :: r <> []) by discriminate.
+      change (match map (embed_simple names) (m0 :: r) with [] => ret (I [opNil]) | _ :: _ => cs_loop (S f) (map (embed_simple names) (m0 :: r)) end)
+        with (cs_loop (S f) (map (embed_simple names) (m0 :: r))).
+      unfold bind at 1.
+      rewrite (cs_simples f n (S m) (S m) Hn (le_n _) (m0 :: r) ks Hne Hwf Hh).
+      change (block_code (length ks) (m0 :: r)) with (simples_code (length ks) (m0 :: r)).
+      destruct (simples_code (length ks) (m0 :: r)) as [c kk]. cbn [fst snd].
+      unfold bind, ret. rewrite close_block_last. reflexivity.
+  Qed.
+  (* ---------------------------------------------------------------- top-level statements *)
+  Notation embed_stmt := (VarProgFacts.embed_stmt names).
+  Notation embed_stmts_cons := (VarProgFacts.embed_stmts_cons names).
   Notation embed_is_expression := (VarProgFacts.embed_is_expression names).
 
-  Lemma pop_between_stmt k s : pop_between (embed_stmt k s) = if is_expr_stmt s then [SI opPopTop] else [].
-  Proof. destruct s; cbn [embed_stmt is_expr_stmt]; unfold pop_between; [reflexivity|reflexivity|rewrite embed_is_expression; reflexivity]. Qed.
-  Lemma nil_after_stmt k s : nil_after (embed_stmt k s) = if is_expr_stmt s then [] else [SI opNil].
-  Proof. destruct s; cbn [embed_stmt is_expr_stmt]; unfold nil_after; [reflexivity|reflexivity|rewrite embed_is_expression; reflexivity]. Qed.
+  (* every conditional opens two blocks *)
+  Definition next_m (m : nat) (s : stmt) : nat := match s with SIf _ _ _ => S (S m) | _ => m end.
+  Fixpoint nblocks (l : list stmt) : nat :=
+    match l with [] => 0 | SIf _ _ _ :: r => S (S (nblocks r)) | _ :: r => nblocks r end.
+  Lemma nblocks_cons m s r : next_m m s + nblocks r = m + nblocks (s :: r).
+  Proof. destruct s; cbn [next_m nblocks]; lia. Qed.
 
-  Lemma cs_program f : forall l k ks, l <> [] ->
-    k + ndecls l <= length names -> wf_stmts k l = true -> max_height l <= f ->
-    cs_loop (S f) (embed_stmts names k l) (pstate k ks) =
-    inr (I (fst (pcode k (length ks) l)), pstate (k + ndecls l) (ks ++ snd (pcode k (length ks) l))).
+  Lemma compile_stmt k m ks s f :
+    next_k k s <= length names -> wf_stmt k s = true -> stmt_height s <= f ->
+    compile (S f) (embed_stmt k s) (pstate k m ks) =
+    inr (I (fst (stmt_code k (length ks) s)), pstate (next_k k s) (next_m m s) (ks ++ snd (stmt_code k (length ks) s))).
   Proof.
-    induction l as [|s r IH]; intros k ks Hne Hk Hwf Hh; [contradiction|].
+    intros Hk Hwf Hf. destruct s as [e|i e|e|c t e]; cbn [VarProgFacts.embed_stmt stmt_code next_k next_m wf_stmt stmt_height] in *.
+    - (* x := e *)
+      rewrite compile_NVar. unfold bind at 1.
+      rewrite (compile_exp k m 0 ks e f ltac:(lia) ltac:(lia) Hwf Hf).
+      destruct (cexp (length ks) e) as [c kk]. cbn [fst snd].
+      unfold bind, cur. cbn [gstate st_stack main_w with_tab w_tab].
+      rewrite (insert_next k m (ks ++ kk) ltac:(lia)).
+      unfold store_sym, bind, is_root, cur, ret. cbn [gstate st_stack main_w with_tab w_root sym_of sy_index].
+      rewrite I_app. reflexivity.
+    - (* x = e *)
+      exact (compile_simple k m 0 ks (MSet i e) f ltac:(lia) ltac:(lia) Hwf Hf).
+    - (* e *)
+      exact (compile_simple k m 0 ks (MExpr e) f ltac:(lia) ltac:(lia) Hwf ltac:(cbn [simple_exp]; lia)).
+    - (* if c { t } else { e } *)
+      apply andb_true_iff in Hwf. destruct Hwf as [Hwct Hwe]. apply andb_true_iff in Hwct. destruct Hwct as [Hwc Hwt].
+      destruct f as [|f]; [lia|]. destruct f as [|f]; [lia|].
+      rewrite compile_NIf. unfold bind at 1.
+      rewrite (compile_exp k m 0 ks c (S (S f)) ltac:(lia) ltac:(lia) Hwc ltac:(lia)).
+      destruct (cexp (length ks) c) as [cc kc]. cbn [fst snd].
+      unfold bind at 1.
+      rewrite (cblock_branch (S f) k m (ks ++ kc) t ltac:(lia) Hwt ltac:(lia)). rewrite app_length.
+      destruct (block_code (length ks + length kc) t) as [ct kt]. cbn [fst snd].
+      unfold bind at 1.
+      rewrite (cblock_branch (S f) k (S m) ((ks ++ kc) ++ kt) e ltac:(lia) Hwe ltac:(lia)). rewrite !app_length.
+      destruct (block_code (length ks + length kc + length kt) e) as [ce ke]. cbn [fst snd].
+      unfold ret. rewrite !nlen_I, <- !app_assoc, !I_app. cbn [I map app]. reflexivity.
+  Qed.
+
+  Lemma pop_between_stmt k s : pop_between (embed_stmt k s) = if is_expr_stmt s then [SI opPopTop] else [].
+  Proof. destruct s; cbn [VarProgFacts.embed_stmt is_expr_stmt]; unfold pop_between; try reflexivity. rewrite embed_is_expression; reflexivity. Qed.
+  Lemma nil_after_stmt k s : nil_after (embed_stmt k s) = if is_expr_stmt s then [] else [SI opNil].
+  Proof. destruct s; cbn [VarProgFacts.embed_stmt is_expr_stmt]; unfold nil_after; try reflexivity. rewrite embed_is_expression; reflexivity. Qed.
+
+  Lemma cs_program f : forall l k m ks, l <> [] ->
+    k + ndecls l <= length names -> wf_stmts k l = true -> max_height l <= f ->
+    cs_loop (S f) (embed_stmts names k l) (pstate k m ks) =
+    inr (I (fst (pcode k (length ks) l)), pstate (k + ndecls l) (m + nblocks l) (ks ++ snd (pcode k (length ks) l))).
+  Proof.
+    induction l as [|s r IH]; intros k m ks Hne Hk Hwf Hh; [contradiction|].
     rewrite wf_stmts_cons in Hwf. apply andb_true_iff in Hwf. destruct Hwf as [Hws Hwr].
     rewrite max_height_cons in Hh. rewrite embed_stmts_cons.
     assert (Hnk : next_k k s <= length names) by (rewrite <- ndecls_cons in Hk; lia).
-    pose proof (compile_stmt k ks s f Hnk Hws ltac:(lia)) as Hc.
+    pose proof (compile_stmt k m ks s f Hnk Hws ltac:(lia)) as Hc.
     destruct r as [|s2 r2].
     - (* the last statement *)
       cbn [embed_stmts cs_loop]. rewrite pcode_single. unfold bind. rewrite Hc.
       destruct (stmt_code k (length ks) s) as [c kk]. cbn [fst snd]. unfold ret.
-      rewrite nil_after_stmt, I_app. rewrite <- ndecls_cons. cbn [ndecls]. rewrite Nat.add_0_r.
+      rewrite nil_after_stmt, I_app. rewrite <- ndecls_cons, <- nblocks_cons. cbn [ndecls nblocks]. rewrite !Nat.add_0_r.
       destruct (is_expr_stmt s); reflexivity.
     - (* more statements follow *)
       assert (Hr : s2 :: r2 <> []) by discriminate.
@@ -186,12 +334,13 @@ Section Names.
       unfold bind at 1. rewrite Hc.
       destruct (stmt_code k (length ks) s) as [c kk] eqn:Es. cbn [fst snd].
       unfold bind at 1.
-      rewrite (IH (next_k k s) (ks ++ kk) Hr ltac:(rewrite ndecls_cons; exact Hk) Hwr ltac:(lia)).
+      rewrite (IH (next_k k s) (next_m m s) (ks ++ kk) Hr ltac:(rewrite ndecls_cons; exact Hk) Hwr ltac:(lia)).
       rewrite app_length, pcode_cons2, Es.
       destruct (pcode (next_k k s) (length ks + length kk) (s2 :: r2)) as [cr kr]. cbn [fst snd].
-      unfold ret. rewrite pop_between_stmt, ndecls_cons, <- app_assoc, !I_app.
+      unfold ret. rewrite pop_between_stmt, ndecls_cons, nblocks_cons, <- app_assoc, !I_app.
       destruct (is_expr_stmt s); reflexivity.
   Qed.
+
   Lemma strip_I l : map (fun s => match s with SI n => n | _ => PLACEHOLDER end) (I l) = l.
   Proof. unfold I. rewrite map_map. induction l; cbn; congruence. Qed.
 
@@ -199,18 +348,19 @@ Section Names.
   Proof.
     unfold collect_decls. induction l as [|s r IH]; intros k; [reflexivity|].
     rewrite embed_stmts_cons.
-    destruct s as [e|i e|e]; cbn [embed_stmt]; try apply IH.
+    destruct s as [e|i e|e|c t e]; cbn [VarProgFacts.embed_stmt]; try apply IH.
     destruct e; cbn [embed]; apply IH.
   Qed.
 
   Theorem compile_var_program l f :
     l <> [] -> ndecls l <= length names -> wf_stmts 0 l = true -> max_height l <= f ->
     compile_program (S f) [] (embed_stmts names 0 l) =
-    inr (Code main_id main_id false 0 (fst (pcode 0 0 l)) (snd (pcode 0 0 l)) [] [] [], [root_tb (ndecls l)]).
+    inr (Code main_id main_id false 0 (fst (pcode 0 0 l)) (snd (pcode 0 0 l)) [] [] [],
+         root_tb (ndecls l) (nblocks l) :: blocks (nblocks l)).
   Proof.
     intros Hne Hn Hwf Hh. unfold compile_program. rewrite init_is_pstate.
     unfold bind at 1. unfold ret at 1. unfold bind at 1.
-    rewrite (collect_decls_stmts (pstate 0 []) l 0).
+    rewrite (collect_decls_stmts (pstate 0 0 []) l 0).
     destruct l as [|s r]; [contradiction|].
     rewrite embed_stmts_cons.
     change (fix cs (l0 : list node) : M (list slot) :=
@@ -222,9 +372,9 @@ Section Names.
     change (match embed_stmts names (next_k 0 s) r with [] => _ | _ :: _ => _ end)
       with (cs_loop (S f) (embed_stmt 0 s :: embed_stmts names (next_k 0 s) r)).
     rewrite <- embed_stmts_cons. unfold bind at 1.
-    rewrite (cs_program f (s :: r) 0 [] Hne Hn Hwf Hh). cbn [length app Nat.add].
+    rewrite (cs_program f (s :: r) 0 0 [] Hne Hn Hwf Hh). cbn [length app Nat.add].
     destruct (pcode 0 0 (s :: r)) as [c ks]. cbn [fst snd].
-    unfold bind, cur, ret. cbn [pstate st_stack st_tabs main_w w_id w_name w_consts w_names w_children].
+    unfold bind, cur, ret. cbn [gstate st_stack st_tabs main_w with_tab w_id w_name w_consts w_names w_children].
     rewrite strip_I. reflexivity.
   Qed.
 End Names.
